@@ -58,6 +58,11 @@ def eval_in(store, x, fn=None, call_eval=None, depth=0):
             return None
         if k == "ref" and x.get("dk") in ("slocal", "global") and "[" in (x.get("t") or ""):
             return symbol_id(x["n"])  # address of a static array: a symbolic non-zero constant
+        if fn is not None and k == "ref" and x.get("dk") == "local" and depth < 25:
+            # a single-definition temporary for a side-effect-free expression (`ofn = t->t->out`) stands for that expression
+            sd = fn.stable_defs()
+            if x["n"] in sd:
+                return eval_in(store, sd[x["n"]], fn, call_eval, depth + 1)
         if fn is not None and k in ("mem", "idx") and depth < 25:
             # an access path through a single-definition temporary (`tsk = t->t; tsk->umsk`) names the object the temporary stands for
             t2 = lv(fn.expand(x))
